@@ -24,7 +24,7 @@ ASSUMPTIONS = [
     "come back as null/[]/{}; date-times are compared as instants",
     "for byte streams only the concatenation is compared (the bundled transport reads the body before the generated method iterates it)",
 ]
-BOUND = {"quick": "~190 operations x <=3 bodies (streams: 3 chunkings)", "thorough": "same + pairs over all 18x18 content kinds for (200,201)"}
+BOUND = {"quick": "~215 operations (27 content kinds) inline and through component refs x <=3 bodies (streams: 4 SSE framings x <=3 chunkings)", "thorough": "same + pairs over all 18x18 content kinds for (200,201)"}
 CHUNK = 1
 PACK = 8
 
